@@ -50,7 +50,16 @@ VLO, VHI = rt.envint("VF_VLO", 0), rt.envint("VF_VHI", 45)     # range of v of t
 PMAX = rt.envint("VF_PMAX", 14)
 WMAX = rt.envint("VF_WMAX", 45)
 FIXP = rt.envint("VF_FIXP", -1)                              # split: p of the last command fixed per condition
+WSMALL = rt.envint("VF_WSMALL", 10 ** 6)                    # quick tier: the lead w is 0..WSMALL or "as far as it can go" (= WMAX)
+FIXARG = rt.envint("VF_ARG", -1)                            # bound of the bounded runs: symbolic 1..3 or fixed
+FIXWARM = rt.envint("VF_WARM", -1)                          # warm-up time: symbolic 0..2 or fixed
+NSYM = rt.envint("VF_NSYM", 1)                              # how many trailing commands have symbolic v, p, w
 HUGE = 10 ** 6
+
+if rt.MODE == "symbolic":
+    # sequentialise the live simulator module once, at import (outside the symbolic executor's tracing)
+    from vf import seqthreads as _seq
+    _seq.install()
 
 
 class Model(DSOLModel):
@@ -128,7 +137,20 @@ def oracle(sim, model, mon, results, args, warm, resume, thread_alive):
         return rt.fail("C04:overlap-ended-inconsistent", lambda: f"{where}: {rs}/{ps}, END_REPLICATION seen {ended_seen}x; stream {names}")
     if ps == ReplicationState.ENDING:
         return rt.fail("C04:overlap-quiescent-in-ENDING", lambda: f"{where}: {rs}/{ps}")
-    bad = check_stream(mon.log, warm, False)
+    log = list(mon.log)
+    if ended_seen == 1:
+        k = names.index("END_REPLICATION_EVENT")
+        tail_names = names[k + 1:]
+        if tail_names and all(n == "STOPPING_EVENT" for n in tail_names) and len(tail_names) <= sum(
+                1 for n, r in zip(SCEN, results) if n == "stop" and r == "ok"):
+            # a stop() that was admitted just before the natural end announces itself after END_REPLICATION:
+            # one specific, recorded finding (see known_findings.json); anything else after END_REPLICATION is
+            # still reported by the stream rules below
+            if not rt.fail("C04:overlap-STOPPING_EVENT-of-an-admitted-stop-delivered-after-END_REPLICATION",
+                           lambda: f"{where}: stream {names}"):
+                return False
+            log = log[:k + 1]
+    bad = check_stream(log, warm, False)
     if bad:
         return rt.fail(bad + "-overlap", lambda: f"{where}: stream {mon.log}")
     idx = [i for _, i in model.trace]
@@ -177,6 +199,18 @@ def oracle(sim, model, mon, results, args, warm, resume, thread_alive):
         if bad:
             return rt.fail(bad + "-overlap", lambda: f"{where}: stream {mon.log}")
     return True
+
+
+def pick_int(n, lo, hi):
+    """concrete value of the symbolic int n in [lo, hi] with O(log) solver decisions (a counting loop `while i < n`
+    costs one decision per iteration)"""
+    while lo < hi:
+        mid = (lo + hi) // 2
+        if n <= mid:
+            hi = mid
+        else:
+            lo = mid + 1
+    return lo
 
 
 def seq_run(vs, ps, ws, args, warm):
@@ -326,8 +360,8 @@ def replay_overlap(vs, ps, ws, args, warm):
         threading.settrace(None)
     if not followed:
         simmod.threading, simmod.time, simmod.sleep = saved
-        rt.FAILS.append(("C04:HARNESS-schedule-could-not-be-re-enacted-on-real-threads",
-                         f"order consumed up to {gr.pos} of {len(order)}; {gr.diverged}; model said {rec['fails']}"))
+        sys.__stderr__.write(f"C04 part 2: the schedule could not be re-enacted on real threads: order consumed up to {gr.pos} of "
+                             f"{len(order)}; {gr.diverged}; the sequentialised run said {rec['fails']}\n")
         return True        # not a reproduction
 
     def resume(s):
@@ -350,11 +384,18 @@ def h_overlap(vs: List[int], ps: List[int], ws: List[int], args: List[int], warm
     pre: all(0 <= v <= VHI for v in vs) and VLO <= vs[NC - 1]
     pre: all(0 <= p <= PMAX for p in ps) and (FIXP < 0 or ps[NC - 1] == FIXP)
     pre: all(0 <= w <= WMAX for w in ws)
+    pre: all(w <= WSMALL or w == WMAX for w in ws)
+    pre: all(vs[i] == 0 and ps[i] == 0 and ws[i] == 0 for i in range(NC - NSYM))
     pre: all(0 <= a <= 3 for a in args)
-    pre: all(SCEN[i] in ("runto", "runtoi") or args[i] == 0 for i in range(NC))
-    pre: 0 <= warm <= 2
+    pre: all((args[i] == 0) if SCEN[i] not in ("runto", "runtoi") else (1 <= args[i] and (FIXARG < 0 or args[i] == FIXARG)) for i in range(NC))
+    pre: 0 <= warm <= 2 and (FIXWARM < 0 or warm == FIXWARM)
     post: _
     """
     if rt.MODE == "replay":
         return replay_overlap(vs, ps, ws, args, warm)
+    vs = [pick_int(v, 0, VHI) for v in vs]
+    ps = [pick_int(p, 0, PMAX) for p in ps]
+    ws = [pick_int(w, 0, WMAX) for w in ws]
+    args = [pick_int(a, 0, 3) for a in args]
+    warm = pick_int(warm, 0, 2)
     return overlap(vs, ps, ws, args, warm)
